@@ -465,6 +465,14 @@ func c16Run(b *core.B) {
 		{"body-let-shadows-parameter", `<% let f = fn(a) { let a = a + 1
  return a } %><% let a = 10 %><%= f(a) %>,<%= a %>,<%= f(1) %>`, "11,10,2"},
 		{"rebinding-a-function-name", `<% let f = fn(n) { return n + 1 } %><%= f(1) %><% let f = fn(n) { return n + 100 } %>|<%= f(1) %>`, "2|101"},
+		// every call starts from a fresh scope: what one call bound is not there in the next
+		{"local-of-an-earlier-call-is-gone", `<% let sign = fn(n) { if (n < 0) { let s = "neg" } if (s) { return s } return "non-neg" } %><%= sign(0 - 5) %>,<%= sign(5) %>,<%= sign(0 - 1) %>,<%= sign(0) %>`, "neg,non-neg,neg,non-neg"},
+		{"local-of-an-earlier-call-is-gone-in-a-loop", `<% let sign = fn(n) { if (n < 0) { let s = "neg" } if (s) { return s } return "non-neg" } %><%= for (x) in [0 - 5, 5, 0 - 1, 0] { %><%= sign(x) %>,<% } %>`, "neg,non-neg,neg,non-neg,"},
+		{"local-of-an-earlier-call-is-gone-in-recursion", `<% let walk = fn(n) { if (n == 0) { let leaf = "L" } if (leaf) { return leaf } return "(" + walk(n - 1) + walk(n - 1) + ")" } %><%= walk(2) %>`, "((LL)(LL))"},
+		{"parameter-of-an-earlier-call-is-gone", `<% let opt = fn(a) { if (a) { return "a=" + a } return "none" } %><% let none = fn() { if (a) { return "leaked " + a } return "clean" } %><%= opt("x") %>|<%= none() %>|<%= opt(nil) %>|<%= opt("y") %>|<%= none() %>`, "a=x|clean|none|a=y|clean"},
+		{"assignment-to-a-local-of-an-earlier-call", `<% let cnt = fn(step) { let c = 0
+ c = c + step
+ return c } %><%= cnt(1) %><%= cnt(2) %><%= cnt(1) %>`, "121"},
 		// calling the result of a call / of an index directly: what the callee expression looks like
 		// (dots in string or float literals, in keys, in paths) must not matter
 		{"call-result-called-directly", `<% let mk = fn(a) { return fn(x) { return x + 10 } } %><%= mk("ab")(1) %>|<%= mk("a.b")(1) %>|<%= mk(1.5)(2) %>|<%= mk("a.b.c")(3) %>`, "11|11|12|13"},
